@@ -277,7 +277,7 @@ Section Sz.
       assert (CL : L ch1 <= L ch + 1).
       { destruct dt; injection P as <- _; try lia; destruct ch as [|x [|y r]]; cbn [List.length]; try lia;
           destruct x as [|q]; cbn [List.length]; try lia;
-          repeat (destruct q as [q|q|]; cbn [List.length]; try lia). }
+          repeat (destruct q as [q|q|]; cbn [List.length]; try lia); destruct (prev_ends_cr _); cbn [List.length]; lia. }
       match goal with |- context [match c_spine ?x with _ => _ end] => set (c1 := x) end.
       assert (H1 : Omega c1 <= Omega c + 1).
       { subst c1. destruct (c_spine c) as [|f up]; [lia|]. destruct (want && _ && _); [|lia].
